@@ -258,6 +258,9 @@ class PersLandscapeApprox(PersLandscape):
             The other summand.
         """
         super().__add__(other)
+        # operands built with compute=False hold no values yet
+        self.compute_landscape()
+        other.compute_landscape()
         if self.start != other.start:
             raise ValueError("Start values of grids do not coincide")
         if self.stop != other.stop:
@@ -275,6 +278,7 @@ class PersLandscapeApprox(PersLandscape):
 
     def __neg__(self):
         """Negates an approximate persistence landscape"""
+        self.compute_landscape()
         return PersLandscapeApprox(
             start=self.start,
             stop=self.stop,
@@ -303,6 +307,7 @@ class PersLandscapeApprox(PersLandscape):
             The real scalar to be multiplied.
         """
         super().__mul__(other)
+        self.compute_landscape()
         return PersLandscapeApprox(
             start=self.start,
             stop=self.stop,
@@ -367,4 +372,5 @@ class PersLandscapeApprox(PersLandscape):
         Returns the supremum norm of an approximate persistence landscape
 
         """
+        self.compute_landscape()
         return np.max(np.abs(self.values))
